@@ -513,6 +513,14 @@ class Interp(OpsMixin, BuiltinsMixin, StdlibMixin):
         else:
             if ckw and cls.metaclass is None:
                 raise PyRaise(Instance(self.bclasses["TypeError"], ("%s.__init_subclass__() takes no keyword arguments" % s.name,)), s, frame.where(s))
+        # containers kept by objects the class body created (strategy objects, descriptors with a table of their own) live
+        # as long as the class does: one object for every user of the class
+        if self.loading and not self.exploring:
+            for key_, val_ in list(ns.items()):
+                if isinstance(val_, Instance) and getattr(val_, "import_time", False):
+                    for an_, av_ in val_.attrs.items():
+                        if isinstance(av_, (dict, list, set, Buf)) and id(av_) not in self.static_ids:
+                            self.mark_static(av_, "%s.%s.%s" % (cls.qualname, key_, an_))
         result = cls
         for d in reversed(s.decorator_list):
             result = self.apply_decorator(self.eval(d, frame), result, d, frame)
@@ -693,6 +701,10 @@ class Interp(OpsMixin, BuiltinsMixin, StdlibMixin):
                 if name in p.locals:
                     if not self.loading or self.exploring:
                         self.journal.append(("attr", p.locals, name, p.locals.get(name, _ABSENT)))
+                        if getattr(p, "import_time", False):
+                            # the enclosing call happened while a module was imported: its variables live as long as the
+                            # module does and are shared by everything that uses the closure
+                            self.event("closure-store", name=name, func=p.func.qualname if p.func else "?", where=frame.where(), value=v)
                     p.locals[name] = v
                     return
                 p = p.parent
@@ -773,6 +785,11 @@ class Interp(OpsMixin, BuiltinsMixin, StdlibMixin):
                 rest(entered)
             except PyRaise as e:
                 ec = e.exc_class()
+                if ec is None and isinstance(e.exc, External):
+                    # an exception raised by a binding: its type is the binding's class of that name
+                    ec = External(e.exc.name)
+                    ec.is_exc_class = True
+                    ec.exc_bases = getattr(e.exc, "exc_bases", ("Exception", "BaseException"))
                 r = self.call_function(exit_, [ctx, ec if ec is not None else e.exc, e.exc, None], {}, item.context_expr, frame)
                 if self.truth(r, item.context_expr, frame):
                     return
@@ -1276,6 +1293,7 @@ class Interp(OpsMixin, BuiltinsMixin, StdlibMixin):
         if st is not None:
             return st(self, f, locs, node, frame)
         nf = Frame(self, f.module, func=f, locals_=locs, parent=f.closure)
+        nf.import_time = bool(self.loading and not self.exploring)
         self.visited.add(f.qualname)
         self.callstack.append((f.qualname, getattr(node, "lineno", None)))
         marks.append(self.dpos)
@@ -1407,7 +1425,7 @@ class Interp(OpsMixin, BuiltinsMixin, StdlibMixin):
         return e
 
 
-_ABSENT = object()
+_ABSENT = ABSENT
 _ABSENT_MARK = _ABSENT
 
 
